@@ -14,7 +14,7 @@
 #include <rtosc/rtosc.h>
 #include <rtosc/thread-link.h>
 #include "common.h"
-#include "sched.h"
+#include "fibers.h"
 #include "tl_view.h"
 #include <set>
 #include "bfs.h"
